@@ -546,3 +546,33 @@ def no_identity_test_against_literals(ctx, rule, classes=None):
                    '(a tuple display is a new object): the branch no longer depends on the value', key=f"identity test against a literal in {fi.qualname}")
     ctx.ob(rule, anchor, anchor.node.lineno, 'no identity test against a number, string or display', not bad,
            fact=f"{n} identity tests examined", why='see the reports', key='identity against literals', nontrivial=False)
+
+
+STATE_ATTRS = {'contents', 'volume', 'wells'}
+STATE_METHODS = {'get_volume', 'get_volumes', 'get_concentration', 'get_substances', 'get_moles', 'has_liquid', 'dataframe'}
+
+
+def declarations_do_not_read_state(ctx, rule, qualnames):
+    """When a step is declared, the objects it names are in the state they were declared in - not in the state they will
+    have when the step is carried out (earlier steps change them).  A declaring method that looks at `contents`,
+    `volume`, `wells` or an observer of an operand decides about the wrong state: it refuses programs whose eager
+    execution is valid, or accepts ones that are not."""
+    model = ctx.model
+    n = 0
+    for q in qualnames:
+        fi = model.func(q)
+        params = set(fi.all_param_names()) - {'self'}
+        hits = []
+        for x in ast.walk(fi.node):
+            if isinstance(x, ast.Attribute) and (x.attr in STATE_ATTRS or x.attr in STATE_METHODS):
+                base = x.value
+                while isinstance(base, (ast.Attribute, ast.Subscript)):
+                    base = base.value
+                if isinstance(base, ast.Name) and base.id in params:
+                    hits.append((x.lineno, ast.unparse(x)[:40]))
+        n += 1
+        ctx.ob(rule, fi, hits[0][0] if hits else fi.node.lineno, f"{q}: the declaration does not depend on the state of its operands",
+               not hits, fact=', '.join(sorted({h[1] for h in hits})) or 'operands are only identified (name, type) and recorded',
+               why='the state at declaration is not the state at that step: a valid program is refused (or an invalid one '
+                   'accepted) when the step is declared', key=f"declaration reads operand state in {q.split('.')[-1]}")
+    ctx.count('declaring_methods_state', n)
